@@ -312,7 +312,9 @@ func P3() []*Program {
 	// inline objects nested in inline objects below a payload / referenced packet (where the enclosing
 	// dissector / codec is itself a sub-routine), plain and repeated
 	chains = append(chains, []string{"match", "inline", "inline"}, []string{"match", "repinline", "repinline"}, []string{"match", "repinline", "inline"},
-		[]string{"ref", "inline", "inline"}, []string{"ref", "repinline", "repinline"}, []string{"repinline"}, []string{"repinline", "repinline"}, []string{"match", "repinline"})
+		[]string{"ref", "inline", "inline"}, []string{"ref", "repinline", "repinline"}, []string{"repinline"}, []string{"repinline", "repinline"}, []string{"match", "repinline"},
+		// a packet reference / a match two inline levels down (name resolution has to descend through both)
+		[]string{"inline", "inline", "ref"}, []string{"inline", "repinline", "reprepeat"}, []string{"inline", "inline", "match"})
 	for _, ch := range chains {
 		for _, lf := range leaves {
 			var packets []*Packet
